@@ -291,6 +291,8 @@ def subst_value(stmts, name, value):
                 st["b"] = subst_value(st["b"], name, value)
         elif k == "call":
             st["args"] = [({"code": subst_value(a["code"], name, value)} if isinstance(a, dict) and "code" in a else map_expr(a, f)) for a in st["args"]]
+        elif k in ("org", "reloc") and not isinstance(st["a"], int):
+            st["a"] = map_expr(st["a"], f)
         if k in ("block", "scope", "include"):
             st["b"] = subst_value(st["b"], name, value)
         out.append(st)
@@ -348,7 +350,9 @@ def scope_label_sites(ir):
 def navigate(ir, steps):
     stmts = ir
     for idx, key in steps:
-        stmts = stmts[idx][key]
+        stmts = stmts[idx]
+        for k in (key if isinstance(key, (list, tuple)) else (key,)):  # ("args", j, "code"): a block argument of a call
+            stmts = stmts[k]
     return stmts
 
 
